@@ -582,7 +582,7 @@ def child_options(src: Src, tier: str):
 
 def cases_of_unit(unit):
     plan, fill, lines, tier = unit
-    extra = tier == "thorough"
+    extra = tier == "thorough" and len(lines) < 4     # extra column indent//2
     base = {"kind": "diag", "fill": list(fill), "lines": [list(x) for x in lines]}
     if plan == "W":
         for t in LABELS_ALL[1:] + ["long"]:
@@ -720,9 +720,11 @@ def units(tier):
             for inds in itertools.product(INDENTS, repeat=4):
                 us.append(("A0", (0, 0), tuple((i, ln) for i in inds), tier))
     else:
-        for n in (3, 4):
-            for ls in itertools.product(lo, repeat=n):
-                us.append(("A", (0, 0), ls, tier))
+        for ls in itertools.product(lo, repeat=3):
+            us.append(("A", (0, 0), ls, tier))
+        # 4 lines: the stated grid completely (empty line / extra column only up to 3 lines)
+        for ls in itertools.product(line_options("quick"), repeat=4):
+            us.append(("A", (0, 0), ls, tier))
     fills = ((8, 0), (8, 20), (98, 20))
     for fill in fills:
         for n in (1, 2) if quick else (1, 2, 3):
